@@ -246,6 +246,19 @@ func c01WPrograms(tier string) []*wn {
 	add(wProg(wset("v", wb("+", wb("+", nine(), a), b)), wset("w", wb("+", wv("v"), warr(c, c))), wset("u", wb("+", wv("v"), warr(a))), wprint(wv("w")), wv("u")))
 	add(wProg(wset("m", W("map", "", wi(2), a, wi(1), b, ws("k"), c)), wprint(wv("m"), widx(wv("m"), wi(1)), widx(wv("m"), ws("z")), W("len", "", wv("m"))), W("setidx", "m", wi(5), a), wv("m")))
 	add(wProg(wset("s", ws("hello")), wprint(widx(wv("s"), wb("%", a, wi(7))), W("slice", "", wv("s"), wi(1), wi(3)), W("sliceopen", "", wv("s"), wi(-2)), W("len", "", wv("s")), wb("+", wv("s"), ws("!")))))
+	// two closures made by one factory are different functions: a call from one into the other resolves the callee's captures
+	add(wProg(wset("mk", wlam([]string{"k"}, wdo(wlam([]string{"g", "d"}, wdo(wif(wb("==", wv("d"), wi(0)), wdo(W("return", "", wv("k")))), wcall(wv("g"), wv("g"), wi(0))))))),
+		wset("p1", wcall(wv("mk"), a)), wset("p2", wcall(wv("mk"), b)), wprint(wcall(wv("p1"), wv("p2"), wi(1)), wcall(wv("p2"), wv("p1"), wi(1)), wcall(wv("p1"), wv("p1"), wi(1)))))
+	add(wProg(wfn("mkc", []string{"k"}, wdo(wlam([]string{"h", "d"}, wdo(wset("k", wb("+", wv("k"), wi(1))), wif(wb(">", wv("d"), wi(0)), wdo(wcall(wv("h"), wv("h"), wb("-", wv("d"), wi(1))))), wv("k"))))),
+		wset("q1", wcall(wv("mkc"), a)), wset("q2", wcall(wv("mkc"), b)), wprint(wcall(wv("q1"), wv("q2"), wi(2)), wcall(wv("q1"), wv("q1"), wi(0)), wcall(wv("q2"), wv("q2"), wi(0)))))
+	// an error inside a map literal or a map index is the program's error, not a stored value
+	add(wProg(wset("m", W("map", "", ws("k"), wb("/", a, wb("-", b, b)))), wprint(ws("after"), wv("m"))))
+	add(wProg(wset("m", W("map", "", wb("/", a, wb("-", b, b)), wi(1))), wprint(ws("after"))))
+	add(wProg(wset("m", W("map", "", wi(1), wi(2))), W("setidx", "m", wb("/", a, wb("-", b, b)), wi(3)), wprint(ws("after"), wv("m"))))
+	add(wProg(wfn("bad", []string{}, wdo(W("error", "", ws("boom")))), wset("m", W("map", "", wcall(wv("bad")), wi(1), wi(2), wcall(wv("bad")))), wprint(ws("after"))))
+	add(wProg(wset("v", warr(wi(1), wb("/", a, wb("-", b, b)))), wprint(ws("after"))))
+	// strings are sequences of runes for first and rest
+	add(wProg(wprint(W("first", "", ws("\u00e9!")), W("rest", "", ws("\u00e9!")), W("rest", "", ws("\u00e9")), W("rest", "", ws("a")), W("rest", "", ws("ab")), W("first", "", ws("")), W("rest", "", ws("")))))
 	// errors and catch
 	add(wProg(wprint(ws("before")), W("error", "", ws("boom")), wprint(ws("after"))))
 	add(wProg(wset("r", W("catch", "", wb("/", a, wb("-", b, b)))), wprint(wv("r")), wset("q", W("catch", "", wb("+", a, wi(1)))), wv("q")))
